@@ -193,7 +193,7 @@ func TestC15(t *testing.T) {
 		"non-trivial = owner has a trailing slash, port, escape or collection-named segment, or the item has an explicit property; distinct by (owner, name)")
 
 	segs := []string{"users", "~jdoe", "a.b", "%20x", "%41", "a%2Fb", "inbox", "Followers", "replies", "x_y-z", "ü"}
-	hosts := []string{"example.com", "example.com:8443", "sub.example.org", "127.0.0.1:3000", "localhost", "inbox", "Followers", "liked:8080", "outbox.example.com"} // hosts that are themselves collection names: a host is no path segment
+	hosts := []string{"example.com", "example.com:8443", "sub.example.org", "127.0.0.1:3000", "localhost", "inbox", "Followers", "liked:8080", "outbox.example.com", "[::1]", "[2001:db8::1]:8080"} // hosts that are themselves collection names: a host is no path segment
 	var owners []string
 	for _, sch := range []string{"https", "http"} {
 		for _, h := range hosts {
